@@ -33,6 +33,7 @@ package cors
 import (
 	"fmt"
 	"io"
+	"runtime"
 	"sort"
 	"strconv"
 	"strings"
@@ -93,6 +94,10 @@ type cfgSpec struct {
 	exposeHeaders []string
 	methods       []string // nil => default
 	preVary       string   // Vary set by an earlier middleware
+	// funcHook: the allow function is a boundary the harness controls. It is called inside
+	// AllowOriginsFunc after the answer was determined, with a copy of the origin the
+	// middleware passed; it may park or yield (a function doing a lookup / I/O would).
+	funcHook func(origin string)
 }
 
 func (s *cfgSpec) allowAll() bool {
@@ -659,7 +664,13 @@ func build(s *cfgSpec, entered *int) (app *fiber.App, panicked bool, pmsg string
 		}
 		if s.hasFunc {
 			set := s.funcSet
-			c.AllowOriginsFunc = func(origin string) bool { return set[strings.ToLower(origin)] }
+			c.AllowOriginsFunc = func(origin string) bool {
+				ok := set[strings.ToLower(origin)]
+				if s.funcHook != nil {
+					s.funcHook(strings.Clone(origin))
+				}
+				return ok
+			}
 		}
 		h = mw.New(c)
 	}
@@ -673,7 +684,9 @@ func build(s *cfgSpec, entered *int) (app *fiber.App, panicked bool, pmsg string
 	}
 	app.Use(h)
 	ok := func(c fiber.Ctx) error {
-		*entered++
+		if entered != nil {
+			*entered++
+		}
 		return c.SendString("H")
 	}
 	for _, p := range okPaths {
@@ -682,7 +695,9 @@ func build(s *cfgSpec, entered *int) (app *fiber.App, panicked bool, pmsg string
 	// downstream outcomes other than "handler answered 200": the rest of the chain ends with an
 	// error (4xx/5xx fiber error, plain error), there is no route (404) or not for this method
 	app.All("/fail/:what", func(c fiber.Ctx) error {
-		*entered++
+		if entered != nil {
+			*entered++
+		}
 		switch c.Params("what") {
 		case "401":
 			return fiber.NewError(fiber.StatusUnauthorized, "no")
@@ -814,211 +829,235 @@ func judge(e *ev.Env, c *ev.Case, sc *scenario) {
 		}) {
 			continue
 		}
-		e.Eval(1)
-		cls := q.class()
-		stat(e, "pairs", 1)
-		stat(e, "class_"+cls, 1)
-		if !inStrs(okPaths, q.path) && cls != clsPreflight {
-			stat(e, "downstream_outcome_not_200", 1)
-			stat(e, fmt.Sprintf("downstream_status_%d", resp.Status), 1)
-		}
-		if q.hasOrigin && q.origin != "" && !all {
-			e.Nontrivial(strings.Join(s.originsText(), ","), fmt.Sprint(s.hasFunc, s.cred), q.origin, cls)
-		}
+		checkResp(e, c, s, all, qi, q, resp, entered, nil)
+	}
+}
 
-		acaoAll := resp.All(hACAO)
-		acao := resp.Get(hACAO)
-		acac := resp.All(hACAC)
-		vary := varySet(resp.All("Vary"))
-		lower := strings.ToLower(q.origin)
+// checkResp judges ONE response against the request that produced it (per-request rules only,
+// so it also serves histories whose requests overlap in time). entered: how often the handler
+// ran for this request.
+func checkResp(e *ev.Env, c *ev.Case, s *cfgSpec, all bool, qi int, q *reqSpec, resp *drive.Resp, entered int, extra0 map[string]any) {
+	detail := func(extra map[string]any) map[string]any {
+		m := map[string]any{"config": s.describe(), "request": q.describe(), "request_index": qi}
+		hs := []string{}
+		for _, h := range resp.Hdr {
+			hs = append(hs, h.K+": "+h.V)
+		}
+		m["status"] = resp.Status
+		m["response_headers"] = hs
+		m["handler_entered"] = entered
+		for k, v := range extra0 {
+			m[k] = v
+		}
+		for k, v := range extra {
+			m[k] = v
+		}
+		return m
+	}
+	e.Eval(1)
+	cls := q.class()
+	stat(e, "pairs", 1)
+	stat(e, "class_"+cls, 1)
+	if !inStrs(okPaths, q.path) && cls != clsPreflight {
+		stat(e, "downstream_outcome_not_200", 1)
+		stat(e, fmt.Sprintf("downstream_status_%d", resp.Status), 1)
+	}
+	if q.hasOrigin && q.origin != "" && !all {
+		e.Nontrivial(strings.Join(s.originsText(), ","), fmt.Sprint(s.hasFunc, s.cred), q.origin, cls)
+	}
 
-		// --- never `*` with credentials; ACAC only as configured ------------------------------
-		if len(acac) > 0 {
-			switch {
-			case acao == "*":
-				e.Violation(c, "credentials-with-star|"+cls, "Access-Control-Allow-Credentials sent together with Access-Control-Allow-Origin: *", detail(nil))
-			case !s.cred:
-				// not a clause of the statement (it only forbids the pair with `*`): observed, not judged
-				stat(e, "info_credentials_header_although_not_configured", 1)
-				e.Sample("info_credentials_header_although_not_configured", detail(nil))
-			case len(acaoAll) == 0:
-				stat(e, "info_credentials_header_without_acao", 1)
-			}
-		}
-		if len(acaoAll) > 1 {
-			e.Violation(c, "acao-multiple|"+cls, "more than one Access-Control-Allow-Origin value", detail(nil))
-		}
+	acaoAll := resp.All(hACAO)
+	acao := resp.Get(hACAO)
+	acac := resp.All(hACAC)
+	vary := varySet(resp.All("Vary"))
+	lower := strings.ToLower(q.origin)
 
-		// --- ACAO only for permitted origins, equal to the lower-cased origin -------------------
-		perm, rule := false, ""
-		if q.hasOrigin && q.inDomain {
-			perm, rule = s.permitted(q.o)
+	// --- never `*` with credentials; ACAC only as configured ------------------------------
+	if len(acac) > 0 {
+		switch {
+		case acao == "*":
+			e.Violation(c, "credentials-with-star|"+cls, "Access-Control-Allow-Credentials sent together with Access-Control-Allow-Origin: *", detail(nil))
+		case !s.cred:
+			// not a clause of the statement (it only forbids the pair with `*`): observed, not judged
+			stat(e, "info_credentials_header_although_not_configured", 1)
+			e.Sample("info_credentials_header_although_not_configured", detail(nil))
+		case len(acaoAll) == 0:
+			stat(e, "info_credentials_header_without_acao", 1)
 		}
-		if len(acaoAll) > 0 {
-			switch {
-			case cls == clsNoOrigin:
-				if acao == "*" && all {
-					// `*` for everybody is within the statement
-				} else {
-					e.Violation(c, "acao-without-origin|"+cls, "Access-Control-Allow-Origin sent for a request without Origin", detail(nil))
-				}
-			case acao == "*" && lower != "*":
-				if !all {
-					origKind := q.kind
-					e.Violation(c, "acao-star-without-allow-all|"+cls+"|"+origKind, "Access-Control-Allow-Origin: * although not all origins are allowed", detail(nil))
-				} else {
-					stat(e, "acao_star_observed", 1)
-				}
-			case acao != lower:
-				sub := "other-value"
-				if acao == q.origin {
-					sub = "raw-case-echo"
-				}
-				e.Violation(c, "acao-not-lowercase-origin|"+cls+"|"+sub, "Access-Control-Allow-Origin is neither * nor the lower-cased request origin", detail(nil))
-			case all:
-				stat(e, "acao_echo_under_allow_all", 1)
-			case q.inDomain && !perm:
-				e.Violation(c, "acao-for-unpermitted-origin|"+cls+"|"+q.kind, "Access-Control-Allow-Origin echoed for an origin the configuration does not permit", detail(nil))
-			case q.inDomain:
-				stat(e, "acao_echo_permitted_"+rule, 1)
-			default:
-				stat(e, "acao_echo_out_of_domain", 1)
-				if !(s.hasFunc && s.funcSet[lower]) {
-					// e.g. the empty label `https://.example.com` against `https://*.example.com`:
-					// not a valid host, outside the statement's domain; informational.
-					stat(e, "info_out_of_domain_origin_echoed_by_list", 1)
-					e.Sample("info_out_of_domain_origin_echoed_by_list", map[string]any{"allow_origins": s.originsText(), "origin": q.origin})
-				}
-			}
-		} else if q.inDomain && cls != clsNoOrigin && cls != clsOptNoACRM {
-			if all {
-				stat(e, "info_allow_all_without_acao", 1)
-			} else if perm {
-				// Converse direction: not demanded by the property statement; counted only.
-				pc := s.permittingEntryClass(q.o)
-				stat(e, "info_permitted_without_acao|"+pc, 1)
-				e.Sample("info_permitted_without_acao|"+pc, detail(nil))
+	}
+	if len(acaoAll) > 1 {
+		e.Violation(c, "acao-multiple|"+cls, "more than one Access-Control-Allow-Origin value", detail(nil))
+	}
+
+	// --- ACAO only for permitted origins, equal to the lower-cased origin -------------------
+	perm, rule := false, ""
+	if q.hasOrigin && q.inDomain {
+		perm, rule = s.permitted(q.o)
+	}
+	if len(acaoAll) > 0 {
+		switch {
+		case cls == clsNoOrigin:
+			if acao == "*" && all {
+				// `*` for everybody is within the statement
 			} else {
-				stat(e, "acao_absent_for_unpermitted", 1)
+				e.Violation(c, "acao-without-origin|"+cls, "Access-Control-Allow-Origin sent for a request without Origin", detail(nil))
+			}
+		case acao == "*" && lower != "*":
+			if !all {
+				origKind := q.kind
+				e.Violation(c, "acao-star-without-allow-all|"+cls+"|"+origKind, "Access-Control-Allow-Origin: * although not all origins are allowed", detail(nil))
+			} else {
+				stat(e, "acao_star_observed", 1)
+			}
+		case acao != lower:
+			sub := "other-value"
+			if acao == q.origin {
+				sub = "raw-case-echo"
+			}
+			e.Violation(c, "acao-not-lowercase-origin|"+cls+"|"+sub, "Access-Control-Allow-Origin is neither * nor the lower-cased request origin", detail(nil))
+		case all:
+			stat(e, "acao_echo_under_allow_all", 1)
+		case q.inDomain && !perm:
+			e.Violation(c, "acao-for-unpermitted-origin|"+cls+"|"+q.kind, "Access-Control-Allow-Origin echoed for an origin the configuration does not permit", detail(nil))
+		case q.inDomain:
+			stat(e, "acao_echo_permitted_"+rule, 1)
+		default:
+			stat(e, "acao_echo_out_of_domain", 1)
+			if !(s.hasFunc && s.funcSet[lower]) {
+				// e.g. the empty label `https://.example.com` against `https://*.example.com`:
+				// not a valid host, outside the statement's domain; informational.
+				stat(e, "info_out_of_domain_origin_echoed_by_list", 1)
+				e.Sample("info_out_of_domain_origin_echoed_by_list", map[string]any{"allow_origins": s.originsText(), "origin": q.origin})
 			}
 		}
+	} else if q.inDomain && cls != clsNoOrigin && cls != clsOptNoACRM {
+		if all {
+			stat(e, "info_allow_all_without_acao", 1)
+		} else if perm {
+			// Converse direction: not demanded by the property statement; counted only.
+			pc := s.permittingEntryClass(q.o)
+			stat(e, "info_permitted_without_acao|"+pc, 1)
+			e.Sample("info_permitted_without_acao|"+pc, detail(nil))
+		} else {
+			stat(e, "acao_absent_for_unpermitted", 1)
+		}
+	}
 
-		// --- credentials for permitted origins ---------------------------------------------------
-		if s.cred && !all && len(acaoAll) == 1 && acao == lower && q.inDomain && perm && (cls == clsSimple || cls == clsPreflight) {
-			if len(acac) != 1 || acac[0] != "true" {
-				// the statement never demands the credentials header: observed, not judged
-				stat(e, "info_credentials_header_missing_for_permitted_origin", 1)
+	// --- credentials for permitted origins ---------------------------------------------------
+	if s.cred && !all && len(acaoAll) == 1 && acao == lower && q.inDomain && perm && (cls == clsSimple || cls == clsPreflight) {
+		if len(acac) != 1 || acac[0] != "true" {
+			// the statement never demands the credentials header: observed, not judged
+			stat(e, "info_credentials_header_missing_for_permitted_origin", 1)
+		} else {
+			stat(e, "acac_observed", 1)
+		}
+	}
+
+	// --- Vary: Origin ------------------------------------------------------------------------
+	if !all && cls != clsOptNoACRM {
+		if !vary["origin"] {
+			e.Violation(c, "vary-origin-missing|"+cls, "response depends on the request origin but carries no Vary: Origin", detail(nil))
+		} else {
+			stat(e, "vary_origin_observed", 1)
+		}
+	}
+
+	// --- handler entry, status, configured preflight headers -----------------------------------
+	// Judged is only what the statement says: a preflight is answered 204 without reaching the
+	// handler, and - for an origin that is granted access (ACAO expected and present) - with
+	// the configured methods/headers. What a REFUSED origin is told beyond "no ACAO", what a
+	// non-preflight response carries besides ACAO/ACAC/Vary, and whether a simple request is
+	// passed on, are not fixed by the statement: counted as info_* only.
+	granted := len(acaoAll) == 1 && (all || (q.inDomain && perm))
+	switch cls {
+	case clsNoOrigin, clsSimple:
+		if entered != 1 || resp.Status != 200 {
+			stat(e, "info_non_preflight_not_passed_to_handler|"+cls, 1)
+		} else {
+			stat(e, "non_preflight_reached_handler", 1)
+		}
+		if cls == clsSimple && len(s.exposeHeaders) > 0 && granted {
+			if resp.Get(hACEH) != strings.Join(s.exposeHeaders, ", ") {
+				stat(e, "info_expose_headers_differ_from_configuration", 1)
 			} else {
-				stat(e, "acac_observed", 1)
+				stat(e, "expose_headers_observed", 1)
 			}
 		}
-
-		// --- Vary: Origin ------------------------------------------------------------------------
-		if !all && cls != clsOptNoACRM {
-			if !vary["origin"] {
-				e.Violation(c, "vary-origin-missing|"+cls, "response depends on the request origin but carries no Vary: Origin", detail(nil))
+		if len(resp.All(hACAPN)) > 0 {
+			stat(e, "info_private_network_header_on_non_preflight", 1)
+		}
+		if len(resp.All(hACMA)) > 0 {
+			stat(e, "info_max_age_on_non_preflight", 1)
+		}
+	case clsOptNoACRM:
+		stat(e, "options_without_acrm_handler_entered", int64(entered))
+	case clsPreflight:
+		if entered != 0 {
+			e.Violation(c, "preflight-reached-handler", "preflight request reached the handler", detail(nil))
+		}
+		if resp.Status != 204 {
+			e.Violation(c, "preflight-status", "preflight not answered with 204", detail(nil))
+		} else {
+			stat(e, "preflight_204", 1)
+		}
+		wantM := strings.Join(s.effMethods(), ", ")
+		wantH := ""
+		if !s.noConfig && len(s.allowHeaders) > 0 {
+			wantH = strings.Join(s.allowHeaders, ", ")
+		}
+		wantMA := ""
+		if s.maxAge > 0 {
+			wantMA = strconv.Itoa(s.maxAge)
+		} else if s.maxAge < 0 {
+			wantMA = "0"
+		}
+		pn := resp.All(hACAPN)
+		if !granted {
+			// refused (or unjudgeable) origin: presence/absence of the grant headers is not judged
+			stat(e, "preflight_not_granted", 1)
+			if resp.Get(hACAM) == wantM {
+				stat(e, "info_refused_preflight_with_allow_methods", 1)
 			} else {
-				stat(e, "vary_origin_observed", 1)
+				stat(e, "info_refused_preflight_without_allow_methods", 1)
+			}
+			if wantH != "" && resp.Get(hACAH) != wantH {
+				stat(e, "info_refused_preflight_without_allow_headers", 1)
+			}
+			if len(pn) > 0 {
+				stat(e, "info_refused_preflight_with_private_network_header", 1)
+			} else if s.pna && q.acrpn == "true" {
+				stat(e, "info_refused_preflight_without_private_network_header", 1)
+			}
+			break
+		}
+		stat(e, "preflight_granted", 1)
+		if got := resp.Get(hACAM); got != wantM {
+			e.Violation(c, "preflight-methods-mismatch", "Access-Control-Allow-Methods differs from the configured methods", detail(map[string]any{"want": wantM}))
+		}
+		if wantH != "" {
+			if got := resp.Get(hACAH); got != wantH {
+				e.Violation(c, "preflight-headers-mismatch", "Access-Control-Allow-Headers differs from the configured headers", detail(map[string]any{"want": wantH}))
 			}
 		}
-
-		// --- handler entry, status, configured preflight headers -----------------------------------
-		// Judged is only what the statement says: a preflight is answered 204 without reaching the
-		// handler, and - for an origin that is granted access (ACAO expected and present) - with
-		// the configured methods/headers. What a REFUSED origin is told beyond "no ACAO", what a
-		// non-preflight response carries besides ACAO/ACAC/Vary, and whether a simple request is
-		// passed on, are not fixed by the statement: counted as info_* only.
-		granted := len(acaoAll) == 1 && (all || (q.inDomain && perm))
-		switch cls {
-		case clsNoOrigin, clsSimple:
-			if entered != 1 || resp.Status != 200 {
-				stat(e, "info_non_preflight_not_passed_to_handler|"+cls, 1)
+		if wantMA != "" {
+			if got := resp.Get(hACMA); got != wantMA {
+				e.Violation(c, "preflight-max-age-mismatch", "Access-Control-Max-Age differs from the configuration", detail(map[string]any{"want": wantMA}))
+			}
+		} else if len(resp.All(hACMA)) > 0 {
+			stat(e, "info_max_age_header_although_max_age_zero", 1)
+		}
+		if s.pna && q.acrpn == "true" {
+			if len(pn) != 1 || pn[0] != "true" {
+				e.Violation(c, "preflight-private-network-missing", "configured and requested private-network access not granted to a permitted origin", detail(nil))
 			} else {
-				stat(e, "non_preflight_reached_handler", 1)
+				stat(e, "private_network_granted", 1)
 			}
-			if cls == clsSimple && len(s.exposeHeaders) > 0 && granted {
-				if resp.Get(hACEH) != strings.Join(s.exposeHeaders, ", ") {
-					stat(e, "info_expose_headers_differ_from_configuration", 1)
-				} else {
-					stat(e, "expose_headers_observed", 1)
-				}
+		} else if len(pn) > 0 {
+			sub := "not-requested"
+			if !s.pna {
+				sub = "not-configured"
 			}
-			if len(resp.All(hACAPN)) > 0 {
-				stat(e, "info_private_network_header_on_non_preflight", 1)
-			}
-			if len(resp.All(hACMA)) > 0 {
-				stat(e, "info_max_age_on_non_preflight", 1)
-			}
-		case clsOptNoACRM:
-			stat(e, "options_without_acrm_handler_entered", int64(entered))
-		case clsPreflight:
-			if entered != 0 {
-				e.Violation(c, "preflight-reached-handler", "preflight request reached the handler", detail(nil))
-			}
-			if resp.Status != 204 {
-				e.Violation(c, "preflight-status", "preflight not answered with 204", detail(nil))
-			} else {
-				stat(e, "preflight_204", 1)
-			}
-			wantM := strings.Join(s.effMethods(), ", ")
-			wantH := ""
-			if !s.noConfig && len(s.allowHeaders) > 0 {
-				wantH = strings.Join(s.allowHeaders, ", ")
-			}
-			wantMA := ""
-			if s.maxAge > 0 {
-				wantMA = strconv.Itoa(s.maxAge)
-			} else if s.maxAge < 0 {
-				wantMA = "0"
-			}
-			pn := resp.All(hACAPN)
-			if !granted {
-				// refused (or unjudgeable) origin: presence/absence of the grant headers is not judged
-				stat(e, "preflight_not_granted", 1)
-				if resp.Get(hACAM) == wantM {
-					stat(e, "info_refused_preflight_with_allow_methods", 1)
-				} else {
-					stat(e, "info_refused_preflight_without_allow_methods", 1)
-				}
-				if wantH != "" && resp.Get(hACAH) != wantH {
-					stat(e, "info_refused_preflight_without_allow_headers", 1)
-				}
-				if len(pn) > 0 {
-					stat(e, "info_refused_preflight_with_private_network_header", 1)
-				} else if s.pna && q.acrpn == "true" {
-					stat(e, "info_refused_preflight_without_private_network_header", 1)
-				}
-				break
-			}
-			stat(e, "preflight_granted", 1)
-			if got := resp.Get(hACAM); got != wantM {
-				e.Violation(c, "preflight-methods-mismatch", "Access-Control-Allow-Methods differs from the configured methods", detail(map[string]any{"want": wantM}))
-			}
-			if wantH != "" {
-				if got := resp.Get(hACAH); got != wantH {
-					e.Violation(c, "preflight-headers-mismatch", "Access-Control-Allow-Headers differs from the configured headers", detail(map[string]any{"want": wantH}))
-				}
-			}
-			if wantMA != "" {
-				if got := resp.Get(hACMA); got != wantMA {
-					e.Violation(c, "preflight-max-age-mismatch", "Access-Control-Max-Age differs from the configuration", detail(map[string]any{"want": wantMA}))
-				}
-			} else if len(resp.All(hACMA)) > 0 {
-				stat(e, "info_max_age_header_although_max_age_zero", 1)
-			}
-			if s.pna && q.acrpn == "true" {
-				if len(pn) != 1 || pn[0] != "true" {
-					e.Violation(c, "preflight-private-network-missing", "configured and requested private-network access not granted to a permitted origin", detail(nil))
-				} else {
-					stat(e, "private_network_granted", 1)
-				}
-			} else if len(pn) > 0 {
-				sub := "not-requested"
-				if !s.pna {
-					sub = "not-configured"
-				}
-				e.Violation(c, "preflight-private-network-unexpected|"+sub, "Access-Control-Allow-Private-Network sent although not configured/requested", detail(nil))
-			}
+			e.Violation(c, "preflight-private-network-unexpected|"+sub, "Access-Control-Allow-Private-Network sent although not configured/requested", detail(nil))
 		}
 	}
 }
@@ -1170,8 +1209,11 @@ func stat(e *ev.Env, name string, n int64) {
 	e.Stat(name, n)
 }
 
+// quiet: New() warns about every func+list configuration
+func quiet() { fiberlog.SetOutput(io.Discard) }
+
 func run(e *ev.Env) {
-	fiberlog.SetOutput(io.Discard) // New() warns about every func+list configuration
+	quiet()
 
 	mk := func(scheme, host, port string, wild bool, text string) entry {
 		lead := len(text) - len(strings.TrimLeft(text, " "))
@@ -1270,6 +1312,13 @@ func run(e *ev.Env) {
 		judge(e, c, sc)
 	})
 
+	// requests that overlap inside the allow function, hand-off by hand-off on one P
+	prevProcs := runtime.GOMAXPROCS(1)
+	e.Cases("overlap", e.N(1500, 60000), func(c *ev.Case) { overlap(e, c) })
+	runtime.GOMAXPROCS(prevProcs)
+	// ... and free-running
+	e.Cases("overlap-stress", e.N(48, 1500), func(c *ev.Case) { overlapStress(e, c) })
+
 	// observation thresholds (R1/R8): the clauses must actually have been exercised
 	if e.Only == "" {
 		need := []struct {
@@ -1278,7 +1327,7 @@ func run(e *ev.Env) {
 		}{
 			{"acao_echo_permitted_exact", 1}, {"acao_echo_permitted_wildcard", 1}, {"acao_echo_permitted_func", 1},
 			{"acao_absent_for_unpermitted", 1}, {"acao_star_observed", 1}, {"acac_observed", 1},
-			{"vary_origin_observed", 1}, {"preflight_204", 1}, {"construct_invalid_panicked", 1}, {"private_network_granted", 1}, {"preflight_granted", 1},
+			{"overlap_second_request_completed_while_first_parked", 1}, {"vary_origin_observed", 1}, {"preflight_204", 1}, {"construct_invalid_panicked", 1}, {"private_network_granted", 1}, {"preflight_granted", 1},
 		}
 		for _, nd := range need {
 			if seen[nd.name] < nd.n {
